@@ -144,9 +144,12 @@ class Contract:
         gen=None,
         bounded=None,
         uses=(),
+        result_term=None,
     ):
         self.target = target
-        self.sig = dict(sig)
+        # sig: one dict, or a list of dicts (alternative signature groups varying together)
+        self.sigs = [dict(g) for g in sig] if isinstance(sig, (list, tuple)) else [dict(sig)]
+        self.sig = self.sigs[0]
         self.requires = requires
         self.raises = raises or {}
         self.ensures = list(ensures)
@@ -170,11 +173,17 @@ class Contract:
         self.gen = gen
         self.bounded = bounded
         self.uses = list(uses)  # Axiom / Lemma objects whose formulas are assumed in every VC
+        # exact functional spec of a list result as a list term over the (pre-state) arguments;
+        # the function's own `runs`-style clause must state equality with this same term
+        self.result_term = result_term
         self.result_alias = result_alias
         self.call_native = call_native
         self.gen = gen
         self.bounded = bounded
         self.uses = list(uses)  # Axiom / Lemma objects whose formulas are assumed in every VC
+        # exact functional spec of a list result as a list term over the (pre-state) arguments;
+        # the function's own `runs`-style clause must state equality with this same term
+        self.result_term = result_term
 
 
 LEMMAS: dict[str, "Lemma"] = {}
@@ -465,6 +474,23 @@ def _mono(m, n):
     if pat_ok([mi, mj]):
         kw["patterns"] = [mpat(mi, mj)]
     return z3.ForAll([i, j], z3.Implies(z3.And(0 <= i, i < j, j < L.zint(n)), m[i] < m[j]), **kw)
+
+
+def qforall(vs, body, pats=()):
+    """ForAll with the given patterns when they are admissible E-matching patterns, else without."""
+    good = []
+    keep = []
+    for p_ in pats:
+        if isinstance(p_, (list, tuple)):
+            if pat_ok(list(p_)):
+                keep.append(list(p_))
+                good.append(mpat(*p_))
+        elif pat_ok(p_):
+            keep.append(p_)
+            good.append(p_)
+    if good:
+        return z3.ForAll(vs, body, patterns=good)
+    return z3.ForAll(vs, body)
 
 
 def mpat(*terms):
